@@ -194,6 +194,10 @@ structure St where
   canContinue : Bool := false
   switchDepth : Nat := 0
   cur : SetRef := .main
+  /-- the label set `stateScript` points to, by value: it is written back to its place (`mainSet`, its slot of
+      `switches` / `catches`) when the emitter leaves it (`St.leave`, end of `compile`); a set is modified only
+      while it is the current one, so the C++'s pointer and this copy cannot be told apart -/
+  curSet : LabelSet := {}
   -- ScriptCountManager
   info : SizeInfo := {}
   ring : Tbl Nat
@@ -315,17 +319,6 @@ def St.addString (s : St) (idx : Nat) : Nat × St :=
     (n % 4294967296, { s with info := { s.info with numStrings := n } })
   else (idx, s)
 
-def St.getSet (s : St) : SetRef → LabelSet
-  | .main => s.mainSet
-  | .sw k => s.switches.getD k {}
-  | .ca k => (s.catches.getD k ⟨0, 0, {}⟩).set
-
-def St.putSet (s : St) (r : SetRef) (ls : LabelSet) : St :=
-  match r with
-  | .main => { s with mainSet := ls }
-  | .sw k => { s with switches := s.switches.setIfInBounds k ls }
-  | .ca k => { s with catches := s.catches.setIfInBounds k { s.catches.getD k ⟨0, 0, {}⟩ with set := ls } }
-
 /-- `AddLabel` / `AddCaseLabel`; `false` = duplicate -/
 def St.addLabel (s : St) (idx : Nat) (priv caseLabel : Bool) : R (Bool × St) :=
   if s.counting then
@@ -334,10 +327,10 @@ def St.addLabel (s : St) (idx : Nat) (priv caseLabel : Bool) : R (Bool × St) :=
     let i := if caseLabel then { i with numCaseLabels := i.numCaseLabels + 1 } else { i with numLabels := i.numLabels + 1 }
     .ok (true, { s with info := i })
   else do
-    let (r, s) ← (s.getSet s.cur).add idx s.pos priv s
+    let (r, s) ← s.curSet.add idx s.pos priv s
     match r with
     | none => .ok (false, s)
-    | some ls => .ok (true, s.putSet s.cur ls)
+    | some ls => .ok (true, { s with curSet := ls })
 
 /-- `CreateSwitchStateScript(labelCount)` -/
 def St.createSwitch (s : St) (labelCount : Nat) : R (Option SetRef × St) :=
@@ -354,6 +347,25 @@ def St.createCatch (s : St) (tryBegin : Nat) (labelCount : Nat) : R (Option SetR
     let (c, s) ← s.caCont.add szCatchBlock s
     let (ls, s) ← ({} : LabelSet).resize labelCount s
     .ok (some (.ca s.catches.size), { s with caCont := c, catches := s.catches.push ⟨tryBegin, s.pos, ls⟩ })
+
+/-- `if (newStateScript) stateScript = newStateScript;` (the counting manager creates none): the new set was
+    pushed by `createSwitch` / `createCatch` and becomes the current one -/
+def St.enter (s : St) (r : Option SetRef) : St :=
+  match r with
+  | some (.sw k) => { s with cur := .sw k, curSet := s.switches.getD k {} }
+  | some (.ca k) => { s with cur := .ca k, curSet := (s.catches.getD k ⟨0, 0, {}⟩).set }
+  | _ => s
+
+/-- the current set goes back to its place -/
+def St.storeCur (s : St) : St :=
+  match s.cur with
+  | .main => { s with mainSet := s.curSet }
+  | .sw k => { s with switches := s.switches.setIfInBounds k s.curSet }
+  | .ca k => { s with catches := s.catches.setIfInBounds k { s.catches.getD k ⟨0, 0, {}⟩ with set := s.curSet } }
+
+/-- `stateScript = oldStateScript;` -/
+def St.leave (s : St) (old : SetRef) (oldSet : LabelSet) : St :=
+  if s.counting then s else { s.storeCur with cur := old, curSet := oldSet }
 
 /-! ## the previous-opcode window -/
 
@@ -380,15 +392,18 @@ def St.absorb (s : St) : R St := do
   let pp := if s.prevPos = 0 then 100 else s.prevPos
   .ok { s with prevPos := pp - 1 }
 
+/-- the stack bookkeeping of `EmitOpcodeWithStack` (`m_iVarStackOffset` and the two maxima) -/
+def St.trackStack (s : St) (ext : Bool) (off : Int) : St :=
+  let s := if ext then { s with maxExt := if s.varStack > s.maxExt then s.varStack else s.maxExt } else s
+  let s := { s with varStack := s.varStack + off }
+  if !ext then { s with maxInt := if s.varStack > s.maxInt then s.varStack else s.maxInt } else s
+
 /-- `EmitOpcodeWithStack` -/
 def St.emitOpWith (s : St) (op : Nat) (off : Int) : R St := do
   let op := op % 256
   if !s.counting && s.dev && s.pos ≥ s.progLen then throw (.ub .sourceMapIndex)
   let ext ← match opExt? op with | some e => .ok e | none => .error (.ub .opcodeTable)
-  let s := if ext then { s with maxExt := if s.varStack > s.maxExt then s.varStack else s.maxExt } else s
-  let s := { s with varStack := s.varStack + off }
-  let s := if !ext then { s with maxInt := if s.varStack > s.maxInt then s.varStack else s.maxInt } else s
-  (s.accumulate op off).write [op]
+  ((s.trackStack ext off).accumulate op off).write [op]
 
 /-- `EmitOpcode` -/
 def St.emitOp (s : St) (op : Nat) : R St := do
@@ -590,6 +605,11 @@ def St.emitExec (s : St) (op0 opCount : Nat) (n : Nat) (off : Int) (ev : Nat) : 
     else s.emitOp (op0 + n)
   s.write (le 4 ev)
 
+/-- `EmitOpcode(OP_SWITCH); WriteOpValue<StateScript*>(stateScript)`: the operand is an address; the model writes
+    the ordinal of the switch set (the harness prints ordinals for these addresses) -/
+def St.emitSwitchOp (s : St) : R St :=
+  s.emitOpBytes OP_SWITCH (le 8 (if s.counting then 0 else match s.cur with | .sw k => k | _ => 0))
+
 /-! ## the emitter -/
 
 mutual
@@ -616,26 +636,7 @@ def emit : Node → St → R St
     s.emitLabelParameterList hasPs ps
   | .assign lhs rhs, s => do
     let s ← emit rhs s
-    -- EmitAssignmentStatement
-    match lhs with
-    | .field idx ev _ wr l =>
-      let direct : R Bool := match l with
-        | .listener _ => if wr = 2 then .error .readOnly else .ok (wr = 1)
-        | _ => .ok true
-      let viaField ← direct
-      let s ← if viaField then do
-          let s ← emit l s
-          s.emitOp OP_LOAD_FIELD_VAR
-        else match l with
-          | .listener b => s.emitOp (OP_LOAD_GAME_VAR + b)
-          | _ => .ok s
-      let (i, s) := s.addString idx
-      s.write (le 4 i ++ le 4 ev)
-    | .idx a i => do
-      let s ← emitRef a s
-      let s ← emit i s
-      s.emitOp OP_LOAD_ARRAY_VAR
-    | _ => .error .badLValue
+    emitAssign lhs s
   | .if_ c t, s => do
     let s ← emit c s
     let s ← s.varToBool
@@ -827,10 +828,10 @@ def emit : Node → St → R St
       let t ← t.emitEof
       .ok (t.info.numLabels + t.info.numCaseLabels)
     let old := s.cur
+    let oldSet := s.curSet
     let (r, s) ← s.createCatch tryBegin numSetLabels
-    let s := match r with | some r => { s with cur := r } | none => s
-    let s ← emit c s
-    { s with cur := old }.addJumpLocation oldPos
+    let s ← emit c (s.enter r)
+    (s.leave old oldSet).addJumpLocation oldPos
   | .switch e b, s => do
     let s ← emit e s
     -- EmitSwitch
@@ -840,17 +841,15 @@ def emit : Node → St → R St
       let t ← t.emitEof
       .ok (t.info.numLabels + t.info.numCaseLabels)
     let old := s.cur
+    let oldSet := s.curSet
     let (r, s) ← s.createSwitch numSetLabels
-    let s := match r with | some r => { s with cur := r } | none => s
-    -- the operand is the `StateScript*`: its ordinal here (the harness prints ordinals for addresses)
-    let operand := match s.cur with | .sw k => k | _ => 0
-    let s ← s.emitOpBytes OP_SWITCH (le 8 (if s.counting then 0 else operand))
+    let s ← (s.enter r).emitSwitchOp
     let startCanBreak := s.canBreak
     let startBreakCount := s.nBrk
     let s ← { s with canBreak := true }.emitBreak
     let s ← emit b s
     let s ← s.processBreak startBreakCount
-    .ok { s with canBreak := startCanBreak, cur := old, switchDepth := s.switchDepth - 1 }
+    .ok ({ s with canBreak := startCanBreak, switchDepth := s.switchDepth - 1 }.leave old oldSet)
   | .brk, s => s.emitBreak
   | .cont, s => s.emitContinue
   | .unknown _, _ => .error .unknownNode
@@ -860,6 +859,26 @@ def emitList : Nodes → St → R St
   | .cons x xs, s => do
     let s ← emit x s
     emitList xs s
+/-- `EmitAssignmentStatement(lhs)` -/
+def emitAssign : Node → St → R St
+  | .field idx ev _ wr l, s => do
+    let direct : R Bool := match l with
+      | .listener _ => if wr = 2 then .error .readOnly else .ok (wr = 1)
+      | _ => .ok true
+    let viaField ← direct
+    let s ← if viaField then do
+        let s ← emit l s
+        s.emitOp OP_LOAD_FIELD_VAR
+      else match l with
+        | .listener b => s.emitOp (OP_LOAD_GAME_VAR + b)
+        | _ => .ok s
+    let (i, s) := s.addString idx
+    s.write (le 4 i ++ le 4 ev)
+  | .idx a i, s => do
+    let s ← emitRef a s
+    let s ← emit i s
+    s.emitOp OP_LOAD_ARRAY_VAR
+  | _, _ => .error .badLValue
 /-- `EmitRef` -/
 def emitRef : Node → St → R St
   | .field idx ev _ _ l, s => do
@@ -905,8 +924,8 @@ def preallocate (dev : Bool) (i : SizeInfo) : R St := do
       .ok { s with swCont := { cap := some i.numSwitches, num := 0 } }
     else .ok s
   let s ← s.alloc i.progLength
-  let (ls, s) ← s.mainSet.resize (i.numLabels + i.numCaseLabels) s
-  .ok { s with mainSet := ls }
+  let (ls, s) ← s.curSet.resize (i.numLabels + i.numCaseLabels) s
+  .ok { s with curSet := ls }
 
 structure Compiled where
   info : SizeInfo
@@ -917,7 +936,7 @@ def compile (dev : Bool) (root : Node) : R Compiled := do
   let c ← emitRoot root (St.init true)
   let s ← preallocate dev c.info
   let s ← emitRoot root s
-  .ok ⟨c.info, s⟩
+  .ok ⟨c.info, s.storeCur⟩
 
 /-! ## well-formed trees (what the parser can produce as far as table indices go) -/
 
